@@ -866,8 +866,16 @@ def _life(rep, tier, prop, fams, needed):
     rep.cov["exhaustive"] = True
     n = 0
     skips = {}
-    for fam in fams:
+    # quick tier: the RSA key SIZE that is not among this run's full families still gets a thin slice (every 48th
+    # scenario): a defect tied to one signature size (512 bytes for RSA-4096) must not wait for the seed to pick it
+    runs = [(fam, None) for fam in fams]
+    if tier == "quick":
+        other_size = "rsa4096-256" if not any(f.startswith("rsa4096") for f in fams) else "rsa2048-256"
+        runs += [(other_size, "48")]
+    for fam, every in runs:
         env = {"ITV_FAMILY": fam}
+        if every:
+            env["ITV_EVERY"] = every
         sh.run(env_extra=env)
         for r in sh.results():
             i = r["i"]
@@ -892,6 +900,7 @@ def _life(rep, tier, prop, fams, needed):
     rep.cov["traces_validated_against_impl"] = n
     rep.cov["skipped"] = skips
     rep.cov["key_families"] = fams
+    rep.cov["key_families_thin_slice"] = [f for f, e in runs if e]
     sh.cleanup()
 
 
@@ -975,6 +984,36 @@ def check_C12(rep, tier):
     rep.cov["evaluations"] = n
     rep.cov["traces_validated_against_impl"] = n
     sh.cleanup()
+    # C12 at the level of one signed block: entries attributed to an identifier that resembles / is another key's,
+    # made with k1's key (MC_C12M over Metablock.tla, run through Metablock::verify in every order of both lists)
+    shm = Sharder("C12M")
+    allow_m = {}
+    seen_m = {}
+
+    def on_m(s):
+        k = scn_key(s)
+        if k in seen_m:
+            return
+        i = shm.add(s)
+        seen_m[k] = i
+        allow_m[i] = s["allow"]
+        rep.nontrivial("m" + k)
+
+    stm = run_tlc("MC_C12M", "MC_C12M.cfg", "c12m", on_scn=on_m)
+    require_clean(stm, "MC_C12M")
+    rep.add_tlc(stm, "MC_C12M")
+    for fam in (["ed25519"] if tier == "quick" else ["ed25519", "ecdsa", "rsa2048-256"]):
+        shm.run(env_extra={"ITV_FAMILY": fam})
+        for r in shm.results():
+            i = r["i"]
+            outs = generic_outs(r)
+            rep.cov["evaluations"] += r.get("runs", 1)
+            for o in outs:
+                if o not in allow_m[i]:
+                    rep.mismatch({"kind": "attributed_signature_counted_for_another_identifier", "actual": o, "allowed": allow_m[i], "family": fam},
+                                 lambda i=i, outs=outs, fam=fam: {"scn": shm.scenario(i), "actual": outs, "env": {"ITV_FAMILY": fam}})
+    rep.cov["block_level_scenarios"] = shm.count
+    shm.cleanup()
     # C12 inside the pipeline: an entry attributed to X counts only through a valid signature of X (MC_C12P over Verify.tla)
     ev0 = rep.cov["evaluations"]
     vr = VerifyRun(rep, "C12", tag="C12P")
